@@ -80,6 +80,7 @@ class Template:
         self.props = set()
         self.verus_args = []
         self.exec = False
+        self.closed = []   # (src, impl-header regex): every fn of that impl block must be an item of this template
         self.rules = {}
         self.parts = []   # ('prelude', [lines], first_line_no) | ('item', Item)
         self._parse(open(path).read())
@@ -118,6 +119,11 @@ class Template:
             s = ln.strip()
             if s == "//@exec":
                 self.exec = True
+                cur.append(ln)
+            elif s.startswith("//@closed "):
+                m2 = re.match(r"//@closed src=(\S+) impl=`([^`]*)`", s)
+                if m2:
+                    self.closed.append((m2.group(1), m2.group(2)))
                 cur.append(ln)
             elif s.startswith("//@props "):
                 self.props |= set(s.split()[1].split(","))
@@ -417,6 +423,28 @@ def assemble(tmpl, repo=None, flip=False):
                               "props": sorted(item.props) if item.props else None,
                               "sha": hashlib.sha256(rtext.encode()).hexdigest()[:12]}
         chunks.append(text)
+    # closed impl blocks: a function of a type whose representation invariant the unit relies on must be under contract
+    asm.uncontracted = []
+    for src_rel, header in tmpl.closed:
+        try:
+            src = open(os.path.join(repo, src_rel)).read()
+            itext, _, _ = cut(src, "impl", header)
+        except (CutError, OSError, ValueError) as e:
+            raise UnitError("closed impl %s in %s: %s" % (header, src_rel, e))
+        toks, _ = lex(itext, 1)
+        depth = 0
+        names = []
+        for k, t in enumerate(toks):
+            if t.text == "{":
+                depth += 1
+            elif t.text == "}":
+                depth -= 1
+            elif t.text == "fn" and depth == 1 and k + 1 < len(toks):
+                names.append(toks[k + 1].text)
+        have = {it.name for it in tmpl.items() if it.kind == "fn" and it.src == src_rel}
+        for n in names:
+            if n not in have:
+                asm.uncontracted.append("%s::%s (%s)" % (header, n, src_rel))
     asm.text = "".join(chunks)
     # assumption scan (every run)
     all_lines = asm.text.split("\n")
